@@ -182,6 +182,8 @@ mut("c12-rebase-off-by-one", "C12", "C12.R4", (RM, "Some(*p - start_cursor + cur
 mut("c12-rebase-unguarded-upper", "C12", "C12.R4", (RM, "Some(p) if start_cursor <= *p && *p < end_cursor => {", "Some(p) if start_cursor <= *p => {"))
 mut("c12-tail-index-absolute", "C12", "C12.R4", (RM, "acc.push((end_marker, Some(current)));", "acc.push((end_marker, Some(0)));"))
 mut("c12-head-index-ignores-children", "C12", "C12.R4", (RM, "acc.push((marker, Some(current + (end_cursor - start_cursor) + 1)));", "acc.push((marker, Some(current + 1)));"))
+mut("c12-block-ranges-unsorted", "C12", "C12.R5", (FM, "    open_structure_remove_range.sort_by_key(|r| r.start);\n", ""))
+mut("c12-block-ranges-sorted-by-end-desc", "C12", "C12.R5", (FM, "open_structure_remove_range.sort_by_key(|r| r.start);", "open_structure_remove_range.sort_by_key(|r| std::cmp::Reverse(r.end));"))
 mut("c12-dedent-end-unclamped", "C12", "C12.R1", (BI, "let end = std::cmp::min(start + indent_len, indent_pos);", "let end = start + indent_len;"))
 
 # ---------------------------------------------------------------- C15
